@@ -10,6 +10,7 @@ import Driver.Proxyflow
 import Driver.Forward
 import Driver.Authflow
 import Driver.Htmlesc
+import Driver.System
 open Lean Sso.Drv
 
 /-! `ssoverif <trace.jsonl>`: one verdict line per case, then a summary line. -/
@@ -27,6 +28,7 @@ def dispatch (e : String) (j : Json) : Except String Verdict :=
   | "forward" => Sso.Drv.Forward.checkCase j
   | "authflow" => Sso.Drv.Authflow.checkCase j
   | "htmlesc" => Sso.Drv.Htmlesc.checkCase j
+  | "system" => Sso.Drv.System.checkCase j
   | _ => throw s!"unknown engine {e}"
 
 partial def loop (h : IO.FS.Stream) (out : IO.FS.Stream) (n bad : Nat) : IO (Nat × Nat) := do
